@@ -321,7 +321,7 @@ def AccSt.value (a : AggSpec) : AccSt → Val
   | .sum v sc dt _ => some (mkNum (dt.getD .integer) v sc)
   | .avg s cnt dt _ =>
     if cnt = 0 then some (.num .integer 0 0)
-    else if (dt.getD .integer).isFloating then some (mkNum .double (s / (cnt : Rat)) 0)
+    else if (dt.getD .integer).isFloating then some (mkNum (dt.getD .integer) (s / (cnt : Rat)) 0)
     else some (.num .decimal (s / (cnt : Rat)) 0)
   | .ext v => v
   | .sample v => v
